@@ -1,5 +1,6 @@
 """C06 - ALTO export never loses, reorders or invents text and never fails."""
 import copy
+import os
 import re
 
 import numpy as np
@@ -39,7 +40,7 @@ def strat_page():
         tok_out = st.text(alphabet="XYZ?!é", min_size=1, max_size=3)
         # format characters inside words (soft hyphen, zero-width joiners, direction marks, private use) and text
         # that looks like markup (entity-like words are ordinary text to an OCR system)
-        tok_special = st.sampled_from(["a\u00adb", "\u200cx", "x\u200d", "q\u200fq", "\ue000", "\u2060w", "&lt", "&amp;lt;", "&#65;", "&copy", "<b>", "a&b"])
+        tok_special = st.sampled_from(["a\u200bb", "a\u00adb", "\u200cx", "x\u200d", "q\u200fq", "\ue000", "\u2060w", "&lt", "&amp;lt;", "&#65;", "&copy", "<b>", "a&b"])
         tok_ar = st.text(alphabet=ARABIC, min_size=1, max_size=5) if arabic else tok_in
         tok_num = st.text(alphabet="0123", min_size=1, max_size=3)
         tok_delim = st.sampled_from([",", ".", "-", ":", '"', "،"])
@@ -334,6 +335,23 @@ def body_page(ctx, case):
               lambda: "export after the transcriptions were corrected on the exported layout: exported %r expected %r; " % (got2, want2) + desc())
     if any(b for b in want2):
         ctx.event("re_export_after_correction")
+    # the file variant (to_altoxml, threshold 0, optionally with the caller's page uuid and processing element) writes the same text
+    import tempfile
+    import lxml.etree as LET
+    fd, tmp_path = tempfile.mkstemp(suffix=".xml", prefix="verif-alto-")
+    os.close(fd)
+    try:
+        kw = {}
+        if case["regions"] and len(case["regions"]) % 2 == 0:
+            kw = dict(page_uuid="0f1e2d3c", ocr_processing_element=LET.Element("OCRProcessing", ID="IdOcr"))
+        ctx.must("alto_export_raises", work.to_altoxml, tmp_path, **kw)
+        with open(tmp_path, encoding="utf-8") as f:
+            xml3 = f.read()
+    finally:
+        os.unlink(tmp_path)
+    got3 = [[[w.get("CONTENT") for w in l["words"]] for l in b["lines"]] for b in walk(xml3)["blocks"]]
+    ctx.check(got3 == want2, "alto_words_differ_from_transcription_words",
+              lambda: "file variant (to_altoxml): exported %r expected %r; " % (got3, want2) + desc())
     # export through the file API uses threshold 0
     if nt:
         ctx.nontrivial(repr(case))
